@@ -764,3 +764,255 @@ Proof.
   - destruct k as [|[|k]]; cbn [nth_error] in Hk; discriminate.
   - destruct k as [|[|k]]; cbn [nth_error] in Hk; discriminate.
 Qed.
+
+(* ---------------------------------------------------------------- D5. perm_is_perm *)
+Lemma upd_length a : forall i v, length (upd a i v) = length a.
+Proof. induction a as [|x a IH]; intros [|i] v; cbn; auto. Qed.
+Lemma nth_error_upd a : forall i v n,
+  nth_error (upd a i v) n =
+  if (n =? i)%nat then (if (i <? length a)%nat then Some v else None) else nth_error a n.
+Proof.
+  induction a as [|x a IH]; intros i v n.
+  - cbn [upd]. destruct i; cbn [upd]; destruct (n =? _)%nat; destruct n; reflexivity.
+  - destruct i as [|i], n as [|n]; cbn [upd nth_error length]; try reflexivity.
+    rewrite IH. change (S n =? S i)%nat with (n =? i)%nat. change (S i <? S (length a))%nat with (i <? length a)%nat.
+    reflexivity.
+Qed.
+
+Lemma swap_perm a i j a1 : swap a i j = Ok a1 -> Permutation a a1.
+Proof.
+  unfold swap. destruct (nth_error a i) as [x|] eqn:Hi; [|discriminate].
+  destruct (nth_error a j) as [y|] eqn:Hj; [|discriminate]. intros [= <-].
+  assert (Li : (i < length a)%nat) by (apply nth_error_Some; congruence).
+  assert (Lj : (j < length a)%nat) by (apply nth_error_Some; congruence).
+  apply Permutation_nth_error. split; [now rewrite !upd_length|].
+  exists (fun n => if (n =? j)%nat then i else if (n =? i)%nat then j else n). split.
+  - intros n m. destruct (n =? j)%nat eqn:E1, (n =? i)%nat eqn:E2, (m =? j)%nat eqn:E3, (m =? i)%nat eqn:E4;
+      repeat match goal with
+             | H : (_ =? _)%nat = true |- _ => apply Nat.eqb_eq in H
+             | H : (_ =? _)%nat = false |- _ => apply Nat.eqb_neq in H
+             end; lia.
+  - intros n. rewrite !nth_error_upd, upd_length.
+    replace (j <? length a)%nat with true by (symmetry; apply Nat.ltb_lt; exact Lj).
+    replace (i <? length a)%nat with true by (symmetry; apply Nat.ltb_lt; exact Li).
+    destruct (n =? j)%nat eqn:E1; [now rewrite Hi|].
+    destruct (n =? i)%nat eqn:E2; [now rewrite Hj | reflexivity].
+Qed.
+Lemma swap_in_range a i j : (i < length a)%nat -> (j < length a)%nat -> exists a1, swap a i j = Ok a1 /\ length a1 = length a.
+Proof.
+  intros Hi Hj. unfold swap.
+  destruct (nth_error a i) as [x|] eqn:Ei; [|apply nth_error_None in Ei; lia].
+  destruct (nth_error a j) as [y|] eqn:Ej; [|apply nth_error_None in Ej; lia].
+  eexists. split; [reflexivity | now rewrite !upd_length].
+Qed.
+
+Section Perm.
+  Context {St : Type} (number : St -> nat -> result (Z * St)).
+
+  (* an accepted draw: the result is x mod m for a drawn x <= bound *)
+  Lemma u32_loop_accepts fuel need bound m : forall s v s',
+    u32_loop number fuel need bound m s = Ok (v, s') -> exists x, x <= bound /\ v = x mod m.
+  Proof.
+    induction fuel as [|f IH]; intros s v s'; cbn [u32_loop]; [discriminate|].
+    intros H. apply bind_ok_inv in H as ([r s1] & Hr & H).
+    destruct (r <=? bound) eqn:E; [|eauto]. injection H as <- <-. exists r. split; [lia | reflexivity].
+  Qed.
+  Lemma u32_in_range_lt fuel m s v s' : 0 < m -> u32_in_range number fuel m s = Ok (v, s') -> 0 <= v < m.
+  Proof.
+    intros Hm. unfold u32_in_range. destruct (m =? 0); [discriminate|]. intros H.
+    apply u32_loop_accepts in H as (x & _ & ->). apply Z.mod_pos_bound, Hm.
+  Qed.
+  Lemma fy_loop_perm fuel cnt : forall i a s a' s',
+    fy_loop number fuel cnt i a s = Ok (a', s') -> Permutation a a'.
+  Proof.
+    induction cnt as [|c IH]; intros i a s a' s'; cbn [fy_loop].
+    - intros [= <- _]. apply Permutation_refl.
+    - intros H. apply bind_ok_inv in H as ([j s1] & Hj & H).
+      apply bind_ok_inv in H as (a1 & Hsw & H).
+      eapply Permutation_trans; [eapply swap_perm, Hsw | eapply IH, H].
+  Qed.
+
+  (* with a number source that never fails, the loop ends with a permutation or runs out of
+     fuel: the swaps are always in range *)
+  Hypothesis Hnumber : forall s need, (1 <= need <= 8)%nat -> exists x s', number s need = Ok (x, s').
+  Lemma u32_loop_total fuel need bound m : (1 <= need <= 8)%nat -> forall s,
+    u32_loop number fuel need bound m s = OutOfFuel \/ exists v s', u32_loop number fuel need bound m s = Ok (v, s').
+  Proof.
+    intros Hn. induction fuel as [|f IH]; intros s; cbn [u32_loop]; [auto|].
+    destruct (Hnumber s need Hn) as (x & s1 & ->). cbn [bind].
+    destruct (x <=? bound); [right; eauto | apply IH].
+  Qed.
+  Lemma u32_need_bytes_range m : 1 <= m <= 2 ^ 32 -> 1 <= u32_need_bytes m <= 5.
+  Proof.
+    intros Hm. unfold u32_need_bytes.
+    pose proof (Z.log2_up_nonneg m). pose proof (Z.log2_up_le_mono m (2 ^ 32) ltac:(lia)) as H1.
+    rewrite Z.log2_up_pow2 in H1 by lia. lia.
+  Qed.
+  Lemma fy_loop_total fuel cnt : forall i a s,
+    (1 <= i)%nat -> (i + cnt = length a)%nat -> Z.of_nat (length a) <= 2 ^ 32 ->
+    fy_loop number fuel cnt i a s = OutOfFuel \/ exists a' s', fy_loop number fuel cnt i a s = Ok (a', s').
+  Proof.
+    induction cnt as [|c IH]; intros i a s Hi Hl Hb; cbn [fy_loop]; [right; eauto|].
+    unfold u32_in_range. replace (Z.of_nat i + 1 =? 0) with false by (symmetry; apply Z.eqb_neq; lia).
+    assert (Hnb : 1 <= u32_need_bytes (Z.of_nat i + 1) <= 5) by (apply u32_need_bytes_range; lia).
+    destruct (u32_loop_total fuel (Z.to_nat (u32_need_bytes (Z.of_nat i + 1))) (u32_bound (Z.of_nat i + 1))
+                (Z.of_nat i + 1) ltac:(lia) s) as [->|(j & s1 & Hj)]; [left; reflexivity|].
+    rewrite Hj. cbn [bind].
+    apply u32_loop_accepts in Hj as (x & _ & ->).
+    pose proof (Z.mod_pos_bound x (Z.of_nat i + 1) ltac:(lia)) as Hx.
+    destruct (swap_in_range a i (Z.to_nat (x mod (Z.of_nat i + 1))) ltac:(lia) ltac:(lia)) as (a1 & -> & La).
+    cbn [bind]. apply IH; lia.
+  Qed.
+End Perm.
+
+Section PermBytes.
+  Context {St : Type} (bytes : St -> nat -> result (list Z * St)).
+  Lemma in_range_loop_accepts fuel bound m : forall s v s',
+    in_range_loop bytes fuel bound m s = Ok (v, s') -> exists x, x <= bound /\ v = x mod m.
+  Proof.
+    induction fuel as [|f IH]; intros s v s'; cbn [in_range_loop]; [discriminate|].
+    intros H. apply bind_ok_inv in H as ([r s1] & Hr & H).
+    destruct (r <=? bound) eqn:E; [|eauto]. injection H as <- <-. exists r. split; [lia | reflexivity].
+  Qed.
+  Lemma get_random_in_range_lt fuel m s v s' :
+    0 < m -> get_random_in_range bytes fuel (Some m) s = Ok (v, s') -> 0 <= v < m.
+  Proof.
+    intros Hm. cbn [get_random_in_range]. destruct (m =? 0); [discriminate|]. intros H.
+    apply in_range_loop_accepts in H as (x & _ & ->). apply Z.mod_pos_bound, Hm.
+  Qed.
+
+  Lemma shuffle_loop_perm fuel i : forall a s a' s',
+    shuffle_loop bytes fuel i a s = Ok (a', s') -> Permutation a a'.
+  Proof.
+    induction i as [|i IH]; intros a s a' s'; cbn [shuffle_loop].
+    - intros [= <- _]. apply Permutation_refl.
+    - intros H. apply bind_ok_inv in H as ([j s1] & Hj & H).
+      apply bind_ok_inv in H as (a1 & Hsw & H).
+      eapply Permutation_trans; [eapply swap_perm, Hsw | eapply IH, H].
+  Qed.
+
+End PermBytes.
+
+Lemma iota_length n : length (iota n) = n.
+Proof. unfold iota. now rewrite map_length, seq_length. Qed.
+Lemma iota_range n x : In x (iota n) -> 0 <= x < Z.of_nat n.
+Proof. unfold iota. intros H. apply in_map_iff in H as (i & <- & Hi). apply in_seq in Hi. lia. Qed.
+
+(* the u64 little-endian encoding Value::from_flattened_array_u64(.., UINT64) gives a list of
+   non-negative numbers *)
+Lemma vec_u64_to_bytes_nonneg l : Forall (fun x => 0 <= x) l ->
+  vec_u64_to_bytes U64 l = Ok (flat_map (le_bytes 8) l).
+Proof.
+  intros H. cbn [vec_u64_to_bytes]. f_equal. induction H as [|x l Hx Hl IH]; cbn [flat_map]; [reflexivity|].
+  rewrite IH. f_equal. unfold as_u64. replace (0 <=? x) with true by (symmetry; apply Z.leb_le; exact Hx).
+  reflexivity.
+Qed.
+
+Theorem perm_is_perm aes fuel p iv n v :
+  prf_output_permutation aes fuel p iv n = Ok v ->
+  exists l, Permutation (iota (Z.to_nat n)) l /\ v = BBytes (flat_map (le_bytes 8) l).
+Proof.
+  unfold prf_output_permutation. destruct (2 ^ 30 <? n); [discriminate|]. intros H.
+  apply bind_ok_inv in H as ([a' s'] & Hf & H). apply bind_ok_inv in H as (b & Hb & H). injection H as <-.
+  pose proof (fy_loop_perm _ _ _ _ _ _ _ _ Hf) as HP. exists a'. split; [exact HP|].
+  rewrite vec_u64_to_bytes_nonneg in Hb.
+  - injection Hb as <-. reflexivity.
+  - apply Forall_forall. intros x Hx. apply Permutation_sym in HP.
+    pose proof (iota_range _ _ (Permutation_in _ HP Hx)). lia.
+Qed.
+
+(* for a permutation length the evaluator accepts, the only other outcome is OutOfFuel *)
+Theorem perm_total aes fuel key iv n :
+  0 <= n <= 2 ^ 30 ->
+  prf_output_permutation aes fuel (mkPrf key) iv n = OutOfFuel \/
+  exists l, Permutation (iota (Z.to_nat n)) l /\
+            prf_output_permutation aes fuel (mkPrf key) iv n = Ok (BBytes (flat_map (le_bytes 8) l)).
+Proof.
+  intros Hn. rewrite prf_perm_spec. unfold spec_permutation.
+  replace (2 ^ 30 <? n) with false by (symmetry; apply Z.ltb_ge; lia).
+  destruct (Z.to_nat n) as [|k] eqn:En.
+  { right. exists []. split; [constructor | reflexivity]. }
+  destruct (fy_loop_total (pure_number (stream_byte aes key iv))) with (fuel := fuel) (cnt := (S k - 1)%nat)
+    (i := 1%nat) (a := iota (S k)) (s := 0%nat) as [E|(a' & s' & E)].
+  - intros s need Hneed. unfold pure_number.
+    replace ((1 <=? need)%nat && (need <=? 8)%nat) with true; [eauto|].
+    symmetry. apply andb_true_iff. split; apply Nat.leb_le; lia.
+  - lia.
+  - rewrite iota_length. lia.
+  - rewrite iota_length. assert (2 ^ 30 < 2 ^ 32) by (apply Z.pow_lt_mono_r; lia). lia.
+  - left. rewrite E. reflexivity.
+  - right. rewrite E. cbn [bind]. pose proof (fy_loop_perm _ _ _ _ _ _ _ _ E) as HP.
+    exists a'. split; [exact HP|]. rewrite vec_u64_to_bytes_nonneg; [reflexivity|].
+    apply Forall_forall. intros x Hx. apply Permutation_sym in HP.
+    pose proof (iota_range _ _ (Permutation_in _ HP Hx)). lia.
+Qed.
+
+(* Operation::RandomPermutation through shuffle_array *)
+Theorem shuffle_is_perm {St} (bytes : St -> nat -> result (list Z * St)) fuel a s a' s' :
+  shuffle_array bytes fuel a s = Ok (a', s') -> Permutation a a'.
+Proof. apply shuffle_loop_perm. Qed.
+
+(* ---------------------------------------------------------------- D6. rejection_unbiased *)
+(* the draws 0..B with B+1 = q*m split into m residue classes of exactly q elements each:
+   the class of r is { k*m + r | 0 <= k < q } *)
+Lemma residue_classes m B q r x :
+  0 < m -> B + 1 = q * m -> 0 <= r < m ->
+  (0 <= x <= B /\ x mod m = r) <-> (exists k, 0 <= k < q /\ x = k * m + r).
+Proof.
+  intros Hm HB Hr. split.
+  - intros [Hx Hmod]. exists (x / m). pose proof (Z.div_mod x m ltac:(lia)) as E.
+    assert (0 <= x / m) by (apply Z.div_pos; lia).
+    split; [|lia]. split; [lia|]. apply Z.div_lt_upper_bound; nia.
+  - intros (k & Hk & ->). split; [nia|].
+    rewrite Z.add_comm, Z.mod_add by lia. apply Z.mod_small, Hr.
+Qed.
+Lemma class_members_distinct m r k k' : 0 < m -> k * m + r = k' * m + r -> k = k'.
+Proof. intros Hm H. nia. Qed.
+
+Lemma pow2_ge_log2_up m : 1 <= m -> m <= 2 ^ Z.log2_up m.
+Proof.
+  intros Hm. destruct (Z.eq_dec m 1) as [->|Hne]; [cbn; lia|].
+  apply (Z.log2_up_spec m). lia.
+Qed.
+
+Theorem u32_rejection_unbiased m :
+  0 < m ->
+  let N := 2 ^ (u32_need_bytes m * 8) in
+  let B := u32_bound m in
+  exists q, 0 < q /\ B + 1 = q * m /\ 0 <= B < N /\
+    (forall r x, 0 <= r < m ->
+       (0 <= x <= B /\ x mod m = r) <-> (exists k, 0 <= k < q /\ x = k * m + r)).
+Proof.
+  intros Hm N B. subst B. unfold u32_bound. fold N.
+  replace (N - 1 + 1) with N by lia.
+  pose proof (Z.log2_up_nonneg m) as HL.
+  assert (HN : m <= N).
+  { subst N. eapply Z.le_trans; [apply pow2_ge_log2_up; lia|].
+    apply Z.pow_le_mono_r; [lia|]. unfold u32_need_bytes. lia. }
+  assert (HNpos : 0 < N) by lia.
+  pose proof (Z.mod_pos_bound N m Hm) as Hmod. pose proof (Z.div_mod N m ltac:(lia)) as E.
+  exists (N / m). assert (Hq : 0 < N / m) by (apply Z.div_str_pos; lia).
+  split; [lia|]. split; [lia|]. split; [lia|].
+  intros r x Hr. apply residue_classes; lia.
+Qed.
+
+Theorem u64_rejection_unbiased m :
+  0 < m < 2 ^ 64 ->
+  let B := in_range_bound m in
+  exists q, 0 < q /\ B + 1 = q * m /\ 0 <= B < 2 ^ 64 /\
+    (forall r x, 0 <= r < m ->
+       (0 <= x <= B /\ x mod m = r) <-> (exists k, 0 <= k < q /\ x = k * m + r)).
+Proof.
+  intros Hm B. subst B. unfold in_range_bound, u64_max.
+  rewrite Zplus_mod_idemp_l. replace (2 ^ 64 - 1 + 1) with (2 ^ 64) by lia.
+  set (N := 2 ^ 64) in *. assert (HNpos : 0 < N) by (subst N; lia).
+  pose proof (Z.mod_pos_bound N m ltac:(lia)) as Hmod. pose proof (Z.div_mod N m ltac:(lia)) as E.
+  exists (N / m). assert (Hq : 0 < N / m) by (apply Z.div_str_pos; lia).
+  split; [lia|]. split; [lia|]. split; [lia|].
+  intros r x Hr. apply residue_classes; lia.
+Qed.
+
+(* all evaluator instances fresh *)
+Theorem prf_pure_fresh aes fuel (h : list (nat * prf_call)) :
+  run_history aes fuel h [] = map (fun ic => spec_call aes fuel (snd ic)) h.
+Proof. apply prf_pure. constructor. Qed.
